@@ -16,7 +16,17 @@ from . import bitfix  # noqa: F401
 from . import rformat  # noqa: F401
 import crosshair.core as _core
 
-_core.consider_shortcircuit = lambda *a, **k: None
+_consider = _core.consider_shortcircuit
+
+
+def _no_shortcircuit(fn, sig, bound, subconditions, allow_interpretation):
+    # registered contracts that replace the body (time.time, random, ...) must still be honoured
+    if not allow_interpretation:
+        return _consider(fn, sig, bound, subconditions, allow_interpretation)
+    return None
+
+
+_core.consider_shortcircuit = _no_shortcircuit
 _logging.disable(_logging.CRITICAL)
 
 TRUSTED_BASE = [
